@@ -26,13 +26,15 @@ class _Pipeline:
         return self + other
 
     def __rsub__(self, other) -> Self:
-        return self - other
+        # other - self
+        return -self + other
 
     def __rmul__(self, other) -> Self:
         return self * other
 
     def __rtruediv__(self, other) -> Self:
-        return self / other
+        # other / self: implemented in the subclasses, which know the call signature
+        raise NotImplementedError
 
 
 class ImageProvider(_Pipeline, Generic[_R]):
@@ -79,6 +81,9 @@ class ImageProvider(_Pipeline, Generic[_R]):
                 f"{self.__name__} / {other.__name__}"
             )
         return self.__class__(lambda scale: self(scale) / other)
+
+    def __rtruediv__(self, other) -> ImageProvider:
+        return self.__class__(lambda scale: other / self(scale))
 
     def __eq__(self, other) -> ImageProvider:
         if isinstance(other, ImageProvider):
@@ -220,6 +225,9 @@ class ImageConverter(_Pipeline):
                 lambda x, scale: self(x, scale) / other(scale)
             ).with_name(f"({self.__name__} / {other.__name__})")
         return self.__class__(lambda x, scale: self(x, scale) / other)
+
+    def __rtruediv__(self, other) -> ImageConverter:
+        return self.__class__(lambda x, scale: other / self(x, scale))
 
     def __eq__(self, other) -> ImageConverter:
         if isinstance(other, ImageConverter):
